@@ -107,3 +107,23 @@ func VerifH_C01_wt_batch_fault() {
 	verif.Assert(ok && len(frames) == st.failAt, "exactly the packets before the failing write are on the wire")
 	verif.Assert(rec.count("error")+rec.count("close") >= 1, "the failure is reported on the connection")
 }
+
+// c01Sizes: one text message whose encoded length sits on a frame-length class boundary
+// travels through the real transport, parser and Conn and is decoded from the wire intact.
+func c01Sizes(sizes []int) {
+	n := sizes[verif.Choose(len(sizes))]
+	d := verif.BytesN(n - 1) // the parser prefixes the packet type
+	st := newMemStream(nil, nil)
+	w, _ := newWT(st, "4")
+	w.Send([]*packet.Packet{{Type: packet.MESSAGE, Data: types.NewStringBuffer(append([]byte(nil), d...))}})
+	verif.Settle()
+	frames, ok := refDecodeWire(st.wire)
+	verif.Assert(ok && len(frames) == 1, "exactly one well-formed frame")
+	if ok && len(frames) == 1 {
+		verif.Assert(!frames[0].binary && len(frames[0].payload) == n && frames[0].payload[0] == '4', "text frame of the encoded length")
+		j := verif.Int(0, n-2)
+		verif.Assert(frames[0].payload[1+j] == d[j], "payload bytes identical")
+	}
+}
+
+func VerifH_C01_wt_boundary_sizes() { c01Sizes([]int{125, 126, 127, 65535, 65536, 65537}) }
